@@ -10,8 +10,11 @@ Definition dead_halfedges (h : list (Z * Z)) : nat := length (filter (fun x : Z 
 Definition nan_verts (l : list bool) : nat := length (filter (fun b : bool => b) l).
 
 (* abstraction of a concrete mesh (plus the "sorted" bit, which the arrays do not carry) *)
+(* duplicate directed edges among the live halfedges *)
+Definition dup_edges (h : list (Z * Z)) : nat := length (live_edges h) - length (nodup edge_eq_dec (live_edges h)).
+
 Definition abs_state (m : mesh) (sorted : bool) : cstate :=
-  mkC (count_stranded (map fst (hs m)) (nan m)) (dead_halfedges (hs m) + nan_verts (nan m)) sorted.
+  mkC (count_stranded (map fst (hs m)) (nan m)) (dead_halfedges (hs m) + nan_verts (nan m)) sorted (dup_edges (hs m)).
 
 Lemma remove_unreferenced_verts_eq_from : forall starts l v,
   map (fun vb : Z * bool => if existsb (Z.eqb (fst vb)) starts then snd vb else true) (combine (iota (length l) v) l)
@@ -29,7 +32,7 @@ Proof. intro m. unfold remove_unreferenced_verts, remove_unreferenced. cbn [nan]
 Lemma exec_remove_unreferenced_derived_lemma : forall m sorted,
   exec RemoveUnreferencedVerts (abs_state m sorted) (abs_state (remove_unreferenced_verts m) sorted).
 Proof.
-  intros m sorted. cbn [exec abs_state n_stranded is_sorted]. split; [|reflexivity].
+  intros m sorted. cbn [exec abs_state n_stranded is_sorted n_dup]. split; [|split; reflexivity].
   rewrite remove_unreferenced_verts_eq. cbn [hs remove_unreferenced_verts]. apply remove_unreferenced_spec.
 Qed.
 
